@@ -549,6 +549,44 @@ func (m *Machine) callBuiltin(caller *frame, fn *ssa.Builtin, args []Value) Valu
 			}
 		}
 		return r
+	case "SliceData":
+		return &dataPtr{sl: args[0].(Slice)}
+	case "StringData":
+		return &dataPtr{str: args[0].(*Str)}
+	case "String":
+		n := m.argInt(args[1])
+		switch p := args[0].(type) {
+		case *dataPtr:
+			if p.str != nil {
+				return m.mkStr(m.strBytes(p.str)[:n])
+			}
+			b := make([]*Term, n)
+			for i := 0; i < n; i++ {
+				b[i] = p.sl[i].(*Term)
+			}
+			return m.mkStr(b)
+		case *Value:
+			if n == 0 {
+				return m.emptyStr
+			}
+			if n == 1 {
+				return m.mkStr([]*Term{(*p).(*Term)})
+			}
+		}
+		m.unsupported("unsafe.String on %T", args[0])
+	case "Slice":
+		n := m.argInt(args[1])
+		if p, ok := args[0].(*dataPtr); ok {
+			out := make(Slice, n)
+			if p.str != nil {
+				for i := 0; i < n; i++ {
+					out[i] = m.strAt(p.str, i)
+				}
+				return out
+			}
+			return p.sl[:n:n]
+		}
+		m.unsupported("unsafe.Slice on %T", args[0])
 	case "panic":
 		panic(targetPanic{v: args[0], kind: "explicit", fn: "builtin panic"})
 	case "recover":
@@ -807,7 +845,14 @@ func (it *strIter) next(m *Machine) Tuple {
 		it.pos++
 		return Tuple{m.f.tru, m.f.Const(64, uint64(start)), m.f.Zext(b, 32)}
 	}
-	// non-ASCII: concretise the (up to 4) bytes of this rune
+	// non-ASCII lead byte: invalid leads and truncated sequences decode to RuneError of width 1
+	if !b.IsConst() {
+		invalid := m.f.Or(m.f.Cmp(OUle, b, m.f.Const(8, 0xC1)), m.f.Cmp(OUle, m.f.Const(8, 0xF5), b))
+		if m.branchT(invalid) || it.pos+1 >= it.s.Len() {
+			it.pos++
+			return Tuple{m.f.tru, m.f.Const(64, uint64(start)), m.f.Const(32, 0xFFFD)}
+		}
+	}
 	var buf []byte
 	for i := it.pos; i < it.s.Len() && i < it.pos+4; i++ {
 		buf = append(buf, byte(m.concretize(it.s.sym[i])))
@@ -831,4 +876,10 @@ func (m *Machine) rangeIter(x Value) iter {
 		return &strIter{s: x}
 	}
 	panic(pathAbort{abEngine, fmt.Sprintf("range over %T", x)})
+}
+
+// dataPtr is the result of unsafe.SliceData / unsafe.StringData.
+type dataPtr struct {
+	sl  Slice
+	str *Str
 }
